@@ -244,7 +244,9 @@ DevSig(d, e) ==
     [] d = "Dev_C07_F16Float8Act" ->
          \* float16 model with float8 activations AND a non-finite number actually observed in this step
          /\ Tr[tid][1].dtype = "float16"
-         /\ \E i \in 1..Len(e.mods) : e.mods[i].q /\ e.mods[i].aq \in {"qfloat8", "qfloat8_e4m3fn", "qfloat8_e5m2"}
+         \* (a streamlining context clears activation qtypes at the end of the batch: the records carry the qtype the batch ran with)
+         /\ \/ \E i \in 1..Len(e.mods) : e.mods[i].q /\ e.mods[i].aq \in {"qfloat8", "qfloat8_e4m3fn", "qfloat8_e5m2"}
+            \/ (e.act = "CalibBatch" /\ \E k \in 1..Len(e.calib) : e.calib[k].aq \in {"qfloat8", "qfloat8_e4m3fn", "qfloat8_e5m2"})
          /\ \/ (e.act = "CalibBatch" /\ \E k \in 1..Len(e.calib) :
                    \/ ("out_new" \in DOMAIN e.calib[k] /\ e.calib[k].out_new.s = 2)
                    \/ ("in_new" \in DOMAIN e.calib[k] /\ e.calib[k].in_new.s = 2)
